@@ -64,7 +64,7 @@ OpsApply(st, prev, e, wire) ==
         c0 == WireClause(s1, w, ~st.compress)
         ent == Entity(s1, w)
         c1 == IF c0 # "" /\ e.op = "write_eof" /\ ~st.compress /\ st.length0 # None
-                 /\ StartsWith(w, st.head) /\ ent = s1.fin /\ Len(s1.fin) > st.length0
+                 /\ StartsWith(w, st.head) /\ ent = Expected(st) \o e.data /\ ent # Expected(s1)
               THEN "LengthOverrunAtEof"          \* named deviation: write_eof(data) ignores the declared length
               ELSE c0
         c2 == IF c1 = "" /\ st.compress /\ s1.eof /\ ~st.eof /\ e.op = "write_eof"
